@@ -134,8 +134,10 @@ class TimeTriggerDecorator(TriggerDecorator):
                 await asyncio.sleep(timeout)
                 _LOGGER.debug("%s finish sleeping for %s seconds", self, timeout)
                 while True:
+                    # the wall clock is compared with the trigger time itself; time_next_adj only
+                    # gives the real time to sleep when a DST change lies in between
                     now = dt_now()
-                    timeout = (time_next_adj - now).total_seconds()
+                    timeout = (time_next - now).total_seconds()
                     if timeout <= 1e-6:
                         break
                     _LOGGER.debug("%s additional sleep for %s seconds", self, timeout)
